@@ -511,7 +511,7 @@ func (E *Engine) recAxiomsFor(ts []*Term, goal *Term) []*Term {
 				if done[sk] {
 					continue
 				}
-				ok := u.Name != t.Name
+				ok := u.Name != t.Name || level == 0 // one extra level is always unfolded
 				if !ok {
 					for i := range u.Args {
 						if i < len(t.Args) && u.Args[i].IsConst() && t.Args[i].IsConst() && u.Args[i].C.Cmp(t.Args[i].C) != 0 {
@@ -927,6 +927,8 @@ func (E *Engine) feasible(st *State) bool {
 	E.feasCount++
 	hyps, _ := E.prepare(st.pc, nil)
 	script := Script(hyps, nil, false, nil)
+	// a quick probe only: 150 ms soft limit inside the solver
+	script = strings.Replace(script, "(check-sat)", "(set-option :timeout 150)\n(check-sat)", 1)
 	res, _ := runSolver("z3-new", script, 1)
 	return res != "unsat"
 }
